@@ -1,7 +1,7 @@
 ------------------------------ MODULE MCToml ------------------------------
 (* A small exhaustive configuration of Toml.tla, run with coverage by checks/X16.py (which generates the same kind of  *)
-(* module with all its families for the case generation): all documents of one line over (coverage is very expensive on the lexeme table)                         *)
+(* module with all its families for the case generation): all documents of up to 2 lines over (invariant Refines only: coverage is very expensive on the lexeme table)                         *)
 (*   a = 1 | a = 2 | b = "x" | x = 1 | [t] | [t.u] | [[r]] | (blank)                                                   *)
 EXTENDS Toml
-MCFamilies == [scoping |-> [a |-> {"Ka1", "Ka2", "Kbs", "Kx", "Tt", "Ttu", "Ar", "Z"}, n |-> 1, nl |-> {TRUE}]]
+MCFamilies == [scoping |-> [a |-> {"Ka1", "Ka2", "Kbs", "Kx", "Tt", "Ttu", "Ar", "Z"}, n |-> 2, nl |-> {TRUE}]]
 =============================================================================
